@@ -29,6 +29,9 @@ import (
 // true from a ConnectBg until the background timer expiry (BgFire step), a Disconnect or a plain Connect.
 var verifC10Decl = map[string]bool{}
 
+// observation made by the last IdleFire step: the topic was loaded with no session attached; was its idle timer armed?
+var verifC10Idle map[string]any
+
 // sessions whose flag was forced by the harness (labels only)
 var verifC10Forced = map[string]bool{}
 
@@ -81,14 +84,17 @@ func verifC10ConnectBg(r *verifRunner, a map[string]any) (string, error) {
 	return "", nil
 }
 
-// IdleFire{t}: the World's Unload (fires the topic's REAL idle timer when no session is attached), but waits until the
+// IdleFire{t}: the World's Unload (fires the topic's REAL idle timer when no session is attached); it records whether the
+// timer had been armed by the server (an idle topic whose timer is not armed never unloads in production), and waits until the
 // hub has actually dropped the topic before the step is declared quiescent: on a loaded machine the timer goroutine
 // can be scheduled after the World's fixed 200 us pause, which would book the unload on the NEXT step.
 func verifC10IdleFire(r *verifRunner, a map[string]any) (string, error) {
 	w := r.w
 	cn := w.canon(verifStr(a, "t"))
 	if tp := w.hub.topicGet(cn); tp != nil && cn != "" && !tp.isInactive() && len(tp.sessions) == 0 {
-		tp.killTimer.Reset(time.Nanosecond)
+		// Timer.Reset reports whether the timer was active: was the idle timer of this idle topic armed at all?
+		armed := tp.killTimer.Reset(time.Nanosecond)
+		verifC10Idle = map[string]any{"t": verifStr(a, "t"), "idle": true, "armed": armed}
 		deadline := time.Now().Add(3 * time.Second)
 		for w.hub.topicGet(cn) == tp && time.Now().Before(deadline) {
 			time.Sleep(100 * time.Microsecond)
@@ -196,7 +202,12 @@ func verifC10Record(r *verifRunner, rec map[string]any) {
 		}
 		sb[s] = e
 	}
-	c10 := map[string]any{"me": me, "att": att, "sess": sb, "ann": tann, "supd": tsupd}
+	idle := map[string]any{"t": "", "idle": false, "armed": false}
+	if verifC10Idle != nil {
+		idle = verifC10Idle
+		verifC10Idle = nil
+	}
+	c10 := map[string]any{"idle": idle, "me": me, "att": att, "sess": sb, "ann": tann, "supd": tsupd}
 	if os.Getenv("VERIF_C10_SELFTEST") == "1" {
 		// self-test of the binding (never set by tools/props/c10.py in normal runs): corrupt one recorded observation —
 		// the online counter of the first attached user of every loaded group topic is reported one too high.
